@@ -16,8 +16,18 @@ fn main() {
         usage();
     }
     install_panic_hook();
+    vcheck::logger::install();
     if args[1] == "--worker" {
         worker::worker_main();
+    }
+    if args[1] == "--first-use" {
+        // vcheck --first-use blend <mode> <seed> <c17:0|1>  |  vcheck --first-use observe <seed> <i>
+        let n = |k: usize| -> u64 { args.get(k).and_then(|s| s.parse().ok()).unwrap_or(0) };
+        match args.get(2).map(|s| s.as_str()) {
+            Some("blend") => props::c03::first_use_main(n(3) as u16, n(4), n(5) == 1),
+            Some("observe") => props::c16::first_use_main(n(3), n(4)),
+            _ => usage(),
+        }
     }
     if args[1] == "--obs-digest" {
         let seed: u64 = args.get(2).and_then(|s| s.parse().ok()).unwrap_or(1);
